@@ -685,7 +685,9 @@ func cfgGal(c *config.Config) string {
 		"; c_manager_switchover := " + vk.B(c.ManagerSwitchover) + "; c_manager_election_delay := " + d(c.ManagerElectionDelayAfterQuorumLoss) +
 		"; c_repl_mon := " + vk.B(c.ReplMon) + "; c_master_first_adjust := " + vk.B(c.MasterFirstAdjustSSOrder) +
 		"; c_offline_enable_lag := " + vk.Z(int64(c.OfflineModeEnableLag/time.Second)) + "; c_offline_disable_lag := " + vk.Z(int64(c.OfflineModeDisableLag/time.Second)) +
-		"; c_offline_enable_interval := " + d(c.OfflineModeEnableInterval) + "; c_offline_max_pct := " + vk.Z(int64(c.OfflineModeMaxOfflinePct)) + " |}"
+		"; c_offline_enable_interval := " + d(c.OfflineModeEnableInterval) + "; c_offline_max_pct := " + vk.Z(int64(c.OfflineModeMaxOfflinePct)) +
+		"; c_repair_aggressive := " + vk.B(c.ReplicationRepairAggressiveMode) + "; c_repair_max_attempts := " + vk.Z(int64(c.ReplicationRepairMaxAttempts)) +
+		"; c_repair_cooldown := " + d(c.ReplicationRepairCooldown) + "; c_stream_from_reasonable_lag := " + vk.Z(int64(c.StreamFromReasonableLag/time.Second)) + " |}"
 }
 
 func (v *vApp) close() {
